@@ -54,6 +54,10 @@ def run(ctx):
             ctx.violation("whole_scan", [data], m)
 
 
+def scan_oracle(ctx, data, depth, tree, out):
+    return NO.walk(tree, lambda n, p: NO.c12_node(n, p) + NO.c12_winpath(n, p)) if tree is not None else []
+
+
 def search(ctx):
     ctx.tier = "thorough"
     run(ctx)
